@@ -3,6 +3,7 @@ import Astral.Model.Julian
 import Astral.Model.Sun
 import Astral.Model.Moon
 import Astral.Model.Geocoder
+import Astral.Model.Location
 import Std.Data.HashMap
 open Astral Astral.Proto
 
@@ -333,6 +334,74 @@ def handleGeo (st : St) (fn : String) (a : Array String) : Option (St × String)
   | "sanitize" => let s ← getS a[0]!; pure (st, tokS (sanitize s))
   | _ => none
 
+def getMethod (t : String) : Option Method :=
+  match t with
+  | "sun" => some .sun | "dawn" => some .dawn | "sunrise" => some .sunrise | "noon" => some .noon
+  | "sunset" => some .sunset | "dusk" => some .dusk | "midnight" => some .midnight
+  | "daylight" => some .daylight | "night" => some .night | "twilight" => some .twilight
+  | "moonrise" => some .moonrise | "moonset" => some .moonset
+  | "time_at_elevation" => some .timeAtElevation | "rahukaalam" => some .rahukaalam
+  | "golden_hour" => some .goldenHour | "blue_hour" => some .blueHour
+  | "solar_azimuth" => some .solarAzimuth | "solar_elevation" => some .solarElevation
+  | "solar_zenith" => some .solarZenith | "moon_phase" => some .moonPhase
+  | _ => none
+
+def tokZone : ZoneArg → String
+  | .named t => tokS t
+  | .omitted => "U"
+
+def tokDateArg : DateArg → String
+  | .given d => tokI d
+  | .today z => "today:" ++ tokZone z
+
+def tokOpt {β : Type} (f : β → String) : Option β → String
+  | some x => f x
+  | none => "N"
+
+def tokDir : Dir → String
+  | .rising => "I1"
+  | .setting => "I-1"
+
+def tokCall (c : Call F) : String :=
+  let elev : String := match c.elev with
+    | none => tokElev (.flt 0.0)
+    | some e => match elevOfArg e with
+      | .ok v => tokElev v
+      | .error er => tokE er
+  s!"{c.target.tag} {tokF c.lat} {tokF c.lon} {elev} {tokOpt tokDateArg c.date} " ++
+  s!"{tokOpt tokF c.dep} {tokOpt tokZone c.zone} {tokOpt tokDir c.dir} {tokOpt tokF c.elevationArg}"
+
+def handleLoc (fn : String) (a : Array String) : Option String := do
+  match fn with
+  | "loc_call" =>
+      -- loc_call <lat> <lon> <tz> <dep> <method> <date|N> <local> <obsElev|N> <dir> <elevation|N>
+      let lat ← getF a[0]!; let lon ← getF a[1]!; let tz ← getS a[2]!; let dep ← getF a[3]!
+      let m ← getMethod a[4]!
+      let date ← (if a[5]! == "N" then some none else (getI a[5]!).map some)
+      let loc ← getB a[6]!
+      let oe ← (if a[7]! == "N" then some none else (getElevArg a[7]!).map some)
+      let dir ← getDir a[8]!
+      let el ← (if a[9]! == "N" then some none else (getF a[9]!).map some)
+      let st : LocState F := ⟨lat, lon, tz, dep⟩
+      pure (tokCall (Location.call st m ⟨date, loc, oe, dir, el⟩))
+  | "set_depression" =>
+      let t := a[0]!
+      let d : DepArg F ← (if t == "civil" then some DepArg.civil
+        else if t == "nautical" then some DepArg.nautical
+        else if t == "astronomical" then some DepArg.astronomical
+        else if t.startsWith "name:" then (getS (t.drop 5).toString).map DepArg.name
+        else (getArg t).map DepArg.num)
+      pure (exc tokF (setDepression d))
+  | "cli_run" =>
+      -- cli_run <name> <region> <date|N> <tz|N> <lat> <lon> <elev>
+      let n ← getS a[0]!; let r ← getS a[1]!
+      let date ← (if a[2]! == "N" then some none else (getI a[2]!).map some)
+      let tz ← (if a[3]! == "N" then some none else (getS a[3]!).map some)
+      let lat ← getF a[4]!; let lon ← getF a[5]!; let el ← getF a[6]!
+      let o := Cli.run (⟨n, r, date, tz, lat, lon, el⟩ : CliArgs F)
+      pure (s!"{tokCall o.call} {tokB o.utcSuffix} {tokS o.timezoneLabel} {tokS o.locationLabel}")
+  | _ => none
+
 def handle (fn : String) (a : Array String) : Option String := do
   match fn with
   | "julianday_date" =>
@@ -383,7 +452,7 @@ def processLine (st : St) (line : String) : St × String :=
       | some (id, tz) => ({ st with zones := st.zones.insert id tz }, "ok")
       | none => (st, tokE .badRequest)
     else
-      match (handle fn a <|> handleSun st.zones fn a <|> handleMoon st.zones fn a) with
+      match (handle fn a <|> handleSun st.zones fn a <|> handleMoon st.zones fn a <|> handleLoc fn a) with
       | some r => (st, r)
       | none =>
         match handleGeo st fn a with
